@@ -17,6 +17,7 @@ package main
 // --no-cache run of the same argv. So is every later step of the history.
 
 import (
+	"fmt"
 	"github.com/go-gts/gts/internal/verifsim/core"
 	"github.com/go-gts/gts/internal/verifsim/simos"
 )
@@ -96,12 +97,33 @@ func (x *cliExec) runPar(i int, ps *parStep) {
 		alive[k] = true
 		grant(k)
 	}
+	// the interleaving reached, as a state key: who was set aside behind which
+	// kind of operation on which class of file, for the first switches
+	shape, switches := "", 0
 	for _, seg := range ps.Schedule {
 		k := ((seg[0] % n) + n) % n
+		ran := false
 		for c := 0; c < seg[1] && alive[k]; c++ {
 			grant(k)
+			ran = true
+		}
+		if ran && switches < 8 {
+			if tr := procs[k].Trace; len(tr) > 0 {
+				last := tr[len(tr)-1]
+				if !alive[k] {
+					shape += fmt.Sprintf("%d:end ", k)
+				} else {
+					shape += fmt.Sprintf("%d:%s/%s ", k, last.Kind, last.Class)
+				}
+				switches++
+			}
 		}
 	}
+	cmd0 := "?"
+	if len(ps.Runs[0].Argv) > 0 {
+		cmd0 = ps.Runs[0].Argv[0]
+	}
+	x.key(fmt.Sprintf("par|%s|n=%d|%s", cmd0, n, shape))
 	for k := 0; k < n; k++ {
 		for alive[k] {
 			grant(k)
